@@ -217,19 +217,23 @@ def check_c24(ctx):
                        "splits), runs bfe_http.ReadRequest on one bfe_bufio.Reader, reads the body to EOF, compares "
                        "accept/reject, body bytes and next-request offset, then parses the second message. "
                        "distinct = distinct (message 1, tail, message 2).")
-    mcd = {"LINES": 3, "GLINES": 1} if q else {"LINES": 4, "GLINES": 2}
-    ctx.cov["constants"]["MC_Parse"] = dict(mcd, A=30, B=35, CHLEN=41)
-    ctx.tlc_must_pass(SPEC, "GenParse", "MC_Parse.cfg", defines=mcd, timeout=2400)
+    # every Gen run checks Conform (Layer M allowed by Layer P) in every state it prints, so the exhaustive Gen
+    # run is the MC run of the quick tier; thorough adds a deeper Conform-only run.
+    tails = '{"none", "a", "b", "ch"}'
     cases = []
-    g1 = {"LINES": 2, "GLINES": 1, "TAILS": '{"none", "a", "b", "ch"}', "M2S": "{1, 2, 3}" if q else "{1, 2, 3, 4, 5}"}
-    ctx.cov["constants"]["Gen_Parse_exhaustive"] = g1
-    cases += _gen(ctx, "GenParse", "Gen_Parse.cfg", g1, timeout=1500)
+    g1 = {"LINES": 2, "GLINES": 1, "TAILS": tails, "M2S": "{2, 3}" if q else "{1, 2, 3, 4, 5}"}
+    ctx.cov["constants"]["Gen_Parse_exhaustive"] = dict(g1, A=30, B=35, CHLEN=41)
+    cases += _gen(ctx, "GenParse", "Gen_Parse.cfg", g1, timeout=1500, count=True)
     if not q:
-        g2 = {"LINES": 3, "GLINES": 1, "TAILS": '{"none", "a", "b", "ch"}', "M2S": "{1}"}
+        mcd = {"LINES": 3, "GLINES": 2}
+        ctx.cov["constants"]["MC_Parse"] = mcd
+        ctx.tlc_must_pass(SPEC, "GenParse", "MC_Parse.cfg", defines=mcd, timeout=2400)
+        g2 = {"LINES": 3, "GLINES": 1, "TAILS": tails, "M2S": "{1}"}
         ctx.cov["constants"]["Gen_Parse_exhaustive3"] = g2
         cases += _gen(ctx, "GenParse", "Gen_Parse.cfg", g2, timeout=2400)
-    g3 = {"LINES": 4, "GLINES": 2, "TAILS": '{"none", "a", "b", "ch"}', "M2S": "{1, 2, 3, 4, 5}"}
-    r = ctx.tlc(SPEC, "GenParse", "Gen_Parse.cfg", mode="sim", sim_num=1500 if q else 20000, sim_depth=5,
+    g3 = {"LINES": 4, "GLINES": 2, "TAILS": tails, "M2S": "{1, 2, 3, 4, 5}"}
+    ctx.cov["constants"]["Gen_Parse_simulate"] = g3
+    r = ctx.tlc(SPEC, "GenParse", "Gen_Parse.cfg", mode="sim", sim_num=250 if q else 4000, sim_depth=5,
                 defines=g3, timeout=1500, count=False)
     if not r.ok or not r.cases:
         raise vlib.MachineryError("GenParse -simulate failed: %s %s" % (r.error or r.violation, r.out[-500:]))
